@@ -85,14 +85,15 @@ def build(s, mode):
     kind, o = s['kind'], s['o']
     U, src = _units(s)
     if kind == 'addsub':
-        names = ['a%d' % (i + 1) for i in range(o['nin'])]
+        names = ['a%d' % (i + 1) for i in range(o['nin'])]       # the distinct inputs
+        terms = ['a%d' % i for i in o['map']]                    # the names as given (a name may be repeated)
         c = om.AddSubtractComp()
-        c.add_equation('y', input_names=names, vec_size=o['vec'], length=o['len'],
+        c.add_equation('y', input_names=terms, vec_size=o['vec'], length=o['len'],
                        scaling_factors=[float(v) for v in o['sf']], units=U)
         outs = ['y']
         if o['two']:
             # a second equation sharing the inputs: the names are given in reverse order with the same factor list
-            c.add_equation('y2', input_names=names[::-1], vec_size=o['vec'], length=o['len'],
+            c.add_equation('y2', input_names=terms[::-1], vec_size=o['vec'], length=o['len'],
                            scaling_factors=[float(v) for v in o['sf']], units=U)
             outs.append('y2')
     elif kind == 'mux':
@@ -199,6 +200,8 @@ def observe(s, idx):
         return res
     p.run_model()
     res['y'] = np.concatenate([np.asarray(p.get_val('c.' + o_), dtype=float).ravel() for o_ in outs]).tolist()
+    if kind == 'mux':
+        res['sh'] = [int(d) for d in np.shape(p.get_val('c.y'))]
     of = ['c.' + o_ for o_ in outs]
     wrt = ['ivc.x%d' % i for i in range(len(names))]
     tot = p.compute_totals(of=of, wrt=wrt)
@@ -277,7 +280,7 @@ def nontrivial(s):
     if s['ucfg'] != 'none':
         return True
     if k == 'addsub':
-        return o['vec'] > 1 or o['two'] or any(v != 1 for v in o['sf'])
+        return o['vec'] > 1 or o['two'] or any(v != 1 for v in o['sf']) or len(set(o['map'])) < len(o['map'])
     if k == 'mux':
         return o['n'] > 1
     if k in ('eq', 'balance'):
@@ -301,6 +304,16 @@ def pred_balance_init_kwargs(s, info):
     return s['kind'] == 'balance' and s['o']['route'] == 'init' and s['o']['uroute'] == 'kwargs'
 
 
+def pred_addsub_repeated(s, info):
+    """an input name given more than once in an equation: the partial declared last replaces the others"""
+    return s['kind'] == 'addsub' and len(set(s['o']['map'])) < len(s['o']['map']) and 'partials' in info.get('clause', '')
+
+
+def pred_mux_negative_axis(s, info):
+    """negative axis: the output is declared with list.insert's position, not np.stack's"""
+    return s['kind'] == 'mux' and s['o']['axis'] < 0 and 'partials' not in info.get('clause', '')
+
+
 def run(ctx):
     quick = ctx.tier == 'quick'
     kinds = os.environ.get('VERIF_C26_KINDS')
@@ -315,6 +328,7 @@ NEXT Next
 INVARIANT CentralDiffLaw
 INVARIANT QuotientLaw
 INVARIANT MuxLaw
+INVARIANT AddSubLaw
 INVARIANT CrossLaw
 INVARIANT PolarLaw
 INVARIANT MagLaw
@@ -332,7 +346,9 @@ INVARIANT Export
         raise MachineryError('kinds without scenario: %s' % sorted(set(kinds) - seen))
     ctx.register_predicates({'C26-balance-nd-normalize': pred_balance_nd,
                              'C26-same-operand': pred_same_operand,
-                             'C26-balance-init-kwargs': pred_balance_init_kwargs})
+                             'C26-balance-init-kwargs': pred_balance_init_kwargs,
+                             'C26-addsub-repeated-input': pred_addsub_repeated,
+                             'C26-mux-negative-axis': pred_mux_negative_axis})
     items = [(i, e['s']) for i, e in enumerate(exps)]
     n = nproc()
     chunks = [items[i::n * 4] for i in range(n * 4)]
@@ -357,6 +373,9 @@ INVARIANT Export
         bad = _cmp(v['y'], o_['y'], tol)
         if bad:
             ctx.violation(s, exp_short, o_['y'], '%s: outputs differ from the formula at %s' % (kind, bad[:3]))
+            continue
+        if 'sh' in v and list(v['sh']) != list(o_['sh']):
+            ctx.violation(s, {'shape': v['sh']}, {'shape': o_['sh']}, '%s: shape of the output' % kind)
             continue
         if kind == 'spline' and s['o']['method'] != 'slinear':
             badj = _spline_relations(s, o_['J'])
